@@ -21,7 +21,7 @@ SAMPLE_IMM = {
     "itxn_field": ["Fee"], "itxn": ["Fee"], "itxna": ["Logs 0"], "txnas": ["ApplicationArgs"], "gtxnas": ["0 ApplicationArgs"], "gtxnsas": ["ApplicationArgs"],
     "acct_params_get": ["AcctBalance"], "gitxn": ["0 Fee"], "gitxna": ["0 Logs 0"], "itxnas": ["Logs"], "gitxnas": ["0 Logs"], "base64_decode": ["URLEncoding"],
     "json_ref": ["JSONString"], "vrf_verify": ["VrfAlgorand"], "block": ["BlkSeed"], "replace2": ["0", "3"], "replace": ["", "0", "00", "0x0", "1"], "pushbytess": ["0x01 0x02", "0x01"], "pushints": ["1 2 3", "7"],
-    "bury": ["1", "3"], "popn": ["0", "2"], "dupn": ["0", "2"], "proto": ["1 1"], "frame_dig": ["0", "-1"], "frame_bury": ["0"], "switch": ["a b", "a"], "match": ["a b", "a"],
+    "bury": ["1", "3"], "popn": ["0", "2"], "dupn": ["0", "2"], "proto": ["1 1"], "frame_dig": ["0", "-1"], "frame_bury": ["0"], "switch": ["a b", "a", "a a"], "match": ["a b", "a", "a a", "a b a"],
 }
 
 
